@@ -60,8 +60,13 @@ structure Quirks where
 def Quirks.original : Quirks := ⟨true, true, true, true, true, true⟩
 /-- the code as it is: `fixes/C14_purge_relation_index.diff` (commit c18b52a), the de-duplication of
 `recursive_subclasses` (F-C13-2, fix commit in /repo) and `fixes/C14_dead_neighbour_in_transitive_inference.diff`
-(F-C14-2: dead, unswept neighbours are left out of the transitive inference) are applied, the other defects are open -/
-def Quirks.asIs : Quirks := ⟨false, false, false, true, true, false⟩
+(F-C14-2: dead, unswept neighbours are left out of the transitive inference) and the repair of F-C20-1 (the expression
+table and the class-level expression graph reference expressions weakly: a dropped query object is released together
+with its cached domain) are applied; F-C13-1 (`cachedDomain`) is open -/
+def Quirks.asIs : Quirks := ⟨false, false, false, true, false, false⟩
+/-- the code before the repair of F-C20-1 (`_id_expression_map_` a plain dict, `RWXNode._graph` referencing every
+expression strongly): the expression table never released a query object -/
+def Quirks.leaky : Quirks := { Quirks.asIs with exprTableLeak := true }
 def Quirks.none : Quirks := ⟨false, false, false, false, false, false⟩
 
 inductive Kind where
